@@ -3,6 +3,7 @@ CONSTANTS
   W = 99
   Back = {}
   Fwd = {}
+  AbsLow = {}
   Pairings = {"A", "B"}
   Foreign = {"X"}
   Iids = {1}
